@@ -143,6 +143,7 @@ fn scenario(sc: &Sc, rep: &Report) -> Result<(), String> {
     let mut adm = cell.pg().admin().map_err(|e| format!("admin: {}", e))?;
     let mut rng = Rng::new(sc.seed ^ 0xAD);
     let mut cycles = vec![];
+    let mut long_gaps_left = 2;
     sleep_ms(30);
     for _ in 0..sc.cycles {
         let scope = match rng.below(3) {
@@ -171,9 +172,16 @@ fn scenario(sc: &Sc, rep: &Report) -> Result<(), String> {
             t_rr,
             scope: scope.trim().to_string(),
         });
-        let gap = rng.below(20_000);
-        if gap > 0 {
-            std::thread::sleep(std::time::Duration::from_micros(gap));
+        // mostly short gaps; now and then a long one, so that "released by this RESUME" can be judged
+        // without the next PAUSE getting in the way
+        if long_gaps_left > 0 && rng.chance(1, 5) {
+            long_gaps_left -= 1;
+            sleep_ms(1200);
+        } else {
+            let gap = rng.below(20_000);
+            if gap > 0 {
+                std::thread::sleep(std::time::Duration::from_micros(gap));
+            }
         }
     }
     // final global RESUME, then everybody must be able to finish
@@ -223,6 +231,37 @@ fn scenario(sc: &Sc, rep: &Report) -> Result<(), String> {
                 }
             }
         }
+        // RESUME releases every held client: a request held by a pause must reach its server soon
+        // after the RESUME that ends that pause was answered (unless the pool was paused again)
+        if r.first_of_txn {
+            for (ci, c) in cycles.iter().enumerate() {
+                if !covers(c, &r.pool) || !(c.t_p < r.t_s && r.t_s < c.t_r) {
+                    continue;
+                }
+                let bound = c.t_rr + 1_000_000_000;
+                let paused_again = cycles.iter().skip(ci + 1).any(|c2| covers(c2, &r.pool) && c2.t_p < bound + 50_000_000);
+                if paused_again || bound > t_final {
+                    continue;
+                }
+                rep.count("held_requests_judged_for_release", 1);
+                let late = match arrival.get(&r.qid) {
+                    Some(ta) => *ta > bound,
+                    None => true,
+                };
+                if late {
+                    rep.violation(
+                        &format!("C16|held_client_not_released_by_resume|scope={}", if c.scope.is_empty() { "global" } else { "pool" }),
+                        &format!(
+                            "statement {} (pool {}) was held by PAUSE{}; RESUME{} was answered, no further PAUSE of that pool followed within 1 s, and the statement still had not reached its server {} ms after the RESUME reply",
+                            r.qid, r.pool, if c.scope.is_empty() { String::new() } else { format!(" {}", c.scope) }, if c.scope.is_empty() { String::new() } else { format!(" {}", c.scope) },
+                            arrival.get(&r.qid).map(|ta| (ta.saturating_sub(c.t_rr)) / 1_000_000).unwrap_or(u64::MAX / 1_000_000)
+                        ),
+                        json!({"qid": r.qid, "seed": sc.seed, "cycles": cycles.iter().map(|c| json!([c.t_p, c.t_r, c.t_rr, c.scope])).collect::<Vec<_>>()}),
+                    );
+                }
+                break;
+            }
+        }
         match &r.outcome {
             Outcome::Ok => {}
             Outcome::Timeout => {
@@ -265,7 +304,7 @@ pub fn run(tier: &str) -> i32 {
         "C16",
         tier,
         "exploration",
-        "scenario = 4-64 looping clients (autocommit and BEGIN..COMMIT) on two pools (the second one in session mode, one connection per transaction, in a third of the scenarios) + an admin connection toggling PAUSE/RESUME (global / per pool) at 0-40 ms intervals, worker_threads 2-8, jitter inside wait_paused; oracle = happens-before on one monotonic clock: sent after PAUSE reply => must not reach a server before RESUME is issued; every request completes after the final RESUME; no request fails; distinct = (clients, held requests, cycles)",
+        "scenario = 4-64 looping clients (autocommit and BEGIN..COMMIT) on two pools (the second one in session mode, one connection per transaction, in a third of the scenarios) + an admin connection toggling PAUSE/RESUME (global / per pool) at 0-40 ms intervals, worker_threads 2-8, jitter inside wait_paused; oracle = happens-before on one monotonic clock: sent after PAUSE reply => must not reach a server before RESUME is issued; a held request reaches its server within 1 s of the RESUME reply unless its pool is paused again; every request completes after the final RESUME; no request fails; distinct = (clients, held requests, cycles)",
     );
     rep.assume("a request is judged 'held' only if its first byte was written after the PAUSE reply had been read by the admin connection");
     let thorough = rep.thorough();
